@@ -154,6 +154,9 @@ class Exec:
                 return v
         if op.startswith("&"):
             return self.place(env, re.sub(r"^&(?:mut |raw (?:const|mut) )?", "", op))
+        m = re.match(r"^(?:const )?((?:[A-Za-z_]\w*::)*[a-z_]\w*)(?:::<.*>)?$", op)
+        if m and not re.match(r"^_\d+$", m.group(1)):
+            return ("fn", m.group(1).split("::")[-1])            # a function item used as a value (comparator, callback)
         return self.opq()
 
     def promoted_value(self, body):
